@@ -23,9 +23,9 @@ CONFIGS = {
     "w32": ("gcc", "-O2 -g -U__SIZEOF_INT128__ -fsanitize=address -fno-omit-frame-pointer -fno-common -DBEE2_VERIF",
             "-fsanitize=address", ""),
     "w32rel": ("gcc", "-O2 -U__SIZEOF_INT128__ -fno-strict-aliasing -DNDEBUG", "", ""),
-    "rel": ("gcc", "-O3 -g -fno-strict-aliasing -DNDEBUG", "", "-DX_VALGRIND"),
+    "rel": ("gcc", "-O3 -g -fno-strict-aliasing -DNDEBUG", "-Wl,--wrap=memEq,--wrap=memIsZero", "-DX_VALGRIND"),
     "relwrap": ("gcc", "-O3 -g -fno-strict-aliasing -DNDEBUG", "-Wl,--wrap=malloc,--wrap=free,--wrap=realloc,--wrap=calloc", "-DX_WRAP_ALLOC"),
-    "asanwrap": ("gcc", "-O1 -g -fno-omit-frame-pointer -DBEE2_VERIF", "-Wl,--wrap=malloc,--wrap=free,--wrap=realloc,--wrap=calloc", "-DX_WRAP_ALLOC"),
+    "asanwrap": ("gcc", "-O1 -g -fsanitize=address -fno-omit-frame-pointer -fno-common -DBEE2_VERIF", "-fsanitize=address -Wl,--wrap=malloc,--wrap=free,--wrap=realloc,--wrap=calloc", "-DX_WRAP_ALLOC"),
     "relfast": ("gcc", "-O3 -fno-strict-aliasing -DNDEBUG -DSAFE_FAST", "", ""),
     "O0": ("gcc", "-O0 -g", "", ""),
     "O2a": ("gcc", "-O2", "", ""),
@@ -109,6 +109,8 @@ def build(config):
             xs = [os.path.join(VERIF, "x", "b2x.c")] + sorted(glob.glob(os.path.join(VERIF, "x", "shim*.c")))
             if "X_WRAP_ALLOC" in xextra:
                 xs.append(os.path.join(VERIF, "x", "wrap_alloc.c"))
+            if "X_VALGRIND" in xextra:
+                xs.append(os.path.join(VERIF, "x", "wrap_ct.c"))
             run("%s -w %s %s %s %s -o %s/b2x -Wl,--whole-archive %s -Wl,--no-whole-archive -rdynamic %s -ldl -lpthread" %
                 (cc, cflags, xextra, inc, " ".join(xs), out, lib, ldflags))
         shutil.rmtree(os.path.join(out, "obj"), ignore_errors=True)
